@@ -18,7 +18,7 @@ theorem LClaim.actor0 {s s' : State} {e : Event} (hS : InvS s) (hL : InvL s) (hN
   all_goals (try subst ha)
   all_goals (try (rw [‹s.pc _ = _›] at hc hcN))
   all_goals (try (simp only [setPc_pc, upd_same, afterDeadline_pc, afterNotify_pc, childReturn_pc,
-    childWakeNext_pc, freeLoopStart_pc, enterChild_pc, leave_pc, addUser_pc, markCalled_pc,
+    childWakeNext_pc, childScanStart_pc, acquire_f_children, freeLoopStart_pc, enterChild_pc, leave_pc, addUser_pc, markCalled_pc,
     markFreeing_pc, setAfter_pc, pushObs_pc, publish_pc, delUser_pc]))
   all_goals (try (simp [LClaim]; done))
   all_goals (try (simp_all [LClaim]; done))
@@ -26,6 +26,7 @@ theorem LClaim.actor0 {s s' : State} {e : Event} (hS : InvS s) (hL : InvL s) (hN
   all_goals (try (exact LClaim.afterNotifyPc _ _ _))
   all_goals (try (exact LClaim.childReturnPc hc))
   all_goals (try (exact LClaim.childWakeNextPc hS hL hc (by simp)))
+  all_goals (try (exact LClaim.childLoopStartPc hS hL hc))
   all_goals (try (exact LClaim.freeLoopStartPc hS hL (by simp) hc.1 hc.2.1))
   all_goals (try (exact LClaim.freeLoopStartPc hS hL (by simp) hc.1 (fun _ h => by cases h)))
   -- call nsync_note_free
